@@ -45,7 +45,7 @@ RULE = (
     "operator dtype != torch default dtype, or a kwargs-carrying class, or an integer / boolean tensor argument. Distinct by "
     "(class path, shape, operation, call form, source, target, default dtype, rg0)."
 )
-BUDGET = {"quick": 1300, "thorough": 4000}
+BUDGET = {"quick": 2000, "thorough": 4000}
 ASSUMPTIONS = [
     "cuda() / device moves other than to the CPU are not executable here",
     "half precision is outside the quantifier ({float32, float64})",
@@ -56,8 +56,8 @@ ASSUMPTIONS = [
 DTS = ("f64", "f32")
 CONV = ("to_dtype", "to_tensor", "type", "double", "float")
 OPS = [
-    "to_dtype", "type", "clone", "detach", "to_dtype", "to_tensor", "to_device", "type", "double", "float", "cpu",
-    "evaluate_kernel", "rebuild", "rebuild", "requires_grad_",
+    "to_dtype", "type", "clone", "detach", "rebuild", "to_tensor", "to_device", "double", "float", "cpu", "evaluate_kernel",
+    "requires_grad_", "clone", "rebuild",
 ]  # fmt: skip
 INPLACE = ("requires_grad_",)
 
@@ -426,7 +426,7 @@ def _numerical(e):
     return isinstance(e, (NotPSDError, NanError)) or type(e).__name__ in ("_LinAlgError", "LinAlgError")
 
 
-def _battery(o, shape, pd, dtype):
+def _battery(o, shape, pd, dtype, only=None):
     """name -> ("ok", tensor dtype) | ("exc", exception)."""
     qs = list(GENERIC_Q)
     if shape[-1] == shape[-2]:
@@ -435,6 +435,8 @@ def _battery(o, shape, pd, dtype):
             qs += PD_Q
     out = {}
     for name, fn in qs:
+        if only is not None and name != only:
+            continue
         x = _rhs(shape[-1], dtype)
         try:
             res = fn(o, x)
@@ -453,6 +455,17 @@ def _prep(case):
         for l in R.float_literals(r):
             l["rg"] = True
     return r
+
+
+def _reverse_kernel_params(r):
+    """Copy of the recipe with the keyword tensors of every Kernel node listed in reverse order (None if nothing changes)."""
+    r2 = copy.deepcopy(r)
+    changed = False
+    for n in R.walk(r2):
+        if n["op"] == "Kernel" and len(n.get("params", {})) >= 2:
+            n["params"] = dict(reversed(list(n["params"].items())))
+            changed = True
+    return r2 if changed else None
 
 
 def _recipe_has_float(r):
@@ -549,6 +562,16 @@ def _run(case):
     for q, (st_, val) in sorted(bat0.items()):
         if st_ == "exc":
             labels.append("battery_src_raises:" + q)
+            if L.DT[default] != src_dt and not _numerical(val):
+                # does the query fail only because torch's default dtype differs from the operator's?  (a tensor allocated
+                # without dtype= meeting the operator's data)  Same recipe, same query, default dtype := operator dtype.
+                torch.set_default_dtype(src_dt)
+                try:
+                    alt = _battery(R.build(r), shape, case.get("pd"), src_dt, only=q)[q]
+                finally:
+                    torch.set_default_dtype(L.DT[default])
+                if alt[0] == "ok":
+                    fail("source", "battery:" + q, "exc-default-dependent:" + X.describe(val), "%s raises %r under default dtype %s but works under default dtype %s" % (q, val, default, src_dt))
         elif val != src_dt:
             fail("source", "battery:" + q, "dtype", "%s of a %s operator returned %s under default dtype %s" % (q, src_dt, val, default))
     if bat0["to_dense"][0] == "exc":
@@ -620,6 +643,26 @@ def _run(case):
             _cmp(s0, s1, "op", dmap, bad)
             if bad:
                 fail(opn, "structure", bad[0][0], "; ".join(d for _, d in bad[:4]))
+        # flattening is a deterministic function of the NAMED arguments ("Sorting is necessary so that the flattening in the
+        # representation tree is deterministic", LinearOperator.__init__): the same operator constructed with its keyword
+        # tensors given in another order flattens identically, so either instance's tree rebuilds from either's tensors
+        if opn in ("rebuild", "evaluate_kernel") and not free:
+            r2 = _reverse_kernel_params(r)
+            if r2 is not None:
+                try:
+                    op2 = R.build(r2)
+                    rep_a, rep_b = list(op.representation()), list(op2.representation())
+                    same = len(rep_a) == len(rep_b) and all(x.shape == y.shape and x.dtype == y.dtype and torch.equal(x.detach(), y.detach()) for x, y in zip(rep_a, rep_b))
+                    cross = op.representation_tree()(*rep_b).to_dense().detach() if same else None
+                except Exception as e:
+                    fail(opn, "kwarg_order", "exc:" + X.describe(e), "rebuilding from the tensors of the same operator constructed with reversed keyword order raised %r" % (e,))
+                if not same:
+                    fail(opn, "kwarg_order", "order", "representation() depends on the order in which keyword tensors were passed: %s vs %s" % ([tuple(t.shape) for t in rep_a], [tuple(t.shape) for t in rep_b]))
+                if cross.numel():
+                    ratio, idx = tol.worst_excess(cross, ref, _value_bound(r, L.RDT[src_dt], ref, mag))
+                    if ratio > 1.0 and bat0["to_dense"][0] == "ok":
+                        fail(opn, "kwarg_order", "value", "tree(A)(*representation(B)) differs from the reference, ratio %.3g" % ratio)
+                labels.append("kwarg_order_checked")
         # intact: the source operator is what it was
         s0b = _struct(op)
         if s0b != s0:
@@ -653,17 +696,25 @@ def _run(case):
         if val != E:
             fail(opn, "battery:" + q, "dtype", "%s of the result returned %s, expected %s (default dtype %s)" % (q, val, E, default))
         labels.append("battery_ok:" + q)
-    dense = res.to_dense().detach()
-    if tuple(dense.shape) != shape:
-        fail(opn, "value", "shape", "result densifies to shape %s, reference %s" % (tuple(dense.shape), shape))
-    if dense.numel():
-        bound = _value_bound(r, Ename, ref, mag)
-        ratio, idx = tol.worst_excess(dense, ref, bound)
-        if ratio > 1.0:
-            d0 = op.to_dense().detach()
-            r0, _ = tol.worst_excess(d0, ref, _value_bound(r, L.RDT[src_dt] if src_dt in L.RDT else src, ref, mag))
-            symptom = "value" if r0 <= 1.0 else "value-src"
-            fail(opn, "value", symptom, "max |result-ref|/bound = %.3g at flat %s (result=%r ref=%r; source/ref ratio %.3g)" % (ratio, idx, dense.reshape(-1)[idx].item(), ref.reshape(-1)[idx].item(), r0))
+    # the source's own densification against the reference (C01's verdict): when the SOURCE already disagrees, the reference
+    # cannot arbitrate the copy; everything else above / below is still checked
+    d0 = op.to_dense().detach()
+    src_ok = tuple(d0.shape) == shape
+    if src_ok and d0.numel():
+        r0, _ = tol.worst_excess(d0, ref, _value_bound(r, L.RDT[src_dt], ref, mag))
+        src_ok = r0 <= 1.0
+    if not src_ok:
+        labels.append("source_dense_mismatch")
+        labels.append("source_dense_mismatch:" + head)
+    else:
+        dense = res.to_dense().detach()
+        if tuple(dense.shape) != shape:
+            fail(opn, "value", "shape", "result densifies to shape %s, reference %s" % (tuple(dense.shape), shape))
+        if dense.numel():
+            bound = _value_bound(r, Ename, ref, mag)
+            ratio, idx = tol.worst_excess(dense, ref, bound)
+            if ratio > 1.0:
+                fail(opn, "value", "value", "max |result-ref|/bound = %.3g at flat %s (result=%r ref=%r; source/ref ratio %.3g)" % (ratio, idx, dense.reshape(-1)[idx].item(), ref.reshape(-1)[idx].item(), r0))
 
     classes = set(R.classes(r))
     has_int = bool(classes & INT_CLASSES) or _is_intkernel(r)
@@ -695,8 +746,14 @@ def _run(case):
     }
 
 
-def _blame(case):
-    """Smallest failing proper sub-recipe (bottom-up) under the same operation / dtypes, or None (DESIGN 1.6.5)."""
+def _sig_kind(sig):
+    f = sig.split("|")
+    return (f[1], f[2], f[4]) if len(f) >= 5 else tuple(f)
+
+
+def _blame(case, parent):
+    """Smallest proper sub-recipe (bottom-up) that fails the SAME sub-check with the same symptom under the same operation /
+    dtypes, or None (DESIGN 1.6.5).  A child failing differently is a different root cause and does not explain the parent."""
     from lov import state
 
     for sub in R.proper_subrecipes(case["recipe"]):
@@ -705,8 +762,9 @@ def _blame(case):
         try:
             _run(sc)
         except Violation as v:
-            v.case = sc
-            return v
+            if _sig_kind(v.sig) == _sig_kind(parent.sig):
+                v.case = sc
+                return v
         except HarnessError:
             return None
     return None
@@ -717,7 +775,7 @@ def check(case):
         return _run(case)
     except Violation as v:
         if R.children(case["recipe"]) and not os.environ.get("LOV_C14_NOBLAME"):
-            b = _blame(case)
+            b = _blame(case, v)
             if b is not None:
                 raise b
         raise v
@@ -785,10 +843,10 @@ def _retarget_type(case):
     return c
 
 
-def _convert_f64_over_tperm(case):
-    """A conversion to float64 of a composite that holds a TransposePermutationLinearOperator (dtype hard-wired to float32)."""
+def _convert_f64_over_permutation(case):
+    """A conversion to float64 of a composite that holds a permutation operator (their dtype is hard-wired to float32)."""
     r = case["recipe"]
-    return case["opn"] in CONV and case.get("target") == "f64" and any(n["op"] == "TransposePermutation" and n is not r for n in R.walk(r))
+    return case["opn"] in CONV and case.get("target") == "f64" and any(n["op"] in ("Permutation", "TransposePermutation") and n is not r for n in R.walk(r))
 
 
 def _retarget_f32(case):
@@ -811,7 +869,7 @@ TRIGGERS = {
     "has_Zero": _has_any("Zero"),
     "to_on_int_args": _to_on_int_args,
     "krontri_upper": _krontri_upper,
-    "convert_f64_over_tperm": _convert_f64_over_tperm,
+    "convert_f64_over_permutation": _convert_f64_over_permutation,
     "tperm_type": _tperm_type,
 }
 # trigger -> rewrite applied by the generator while a finding naming the trigger is open (node exclusions are carried by the
@@ -819,7 +877,7 @@ TRIGGERS = {
 REWRITES = {
     "to_device_on_to_override": _set_op("cpu"),
     "to_on_int_args": _retarget_type,
-    "convert_f64_over_tperm": _retarget_f32,
+    "convert_f64_over_permutation": _retarget_f32,
     "tperm_type": _set_op("to_dtype", form="pos"),
 }
 
@@ -827,7 +885,8 @@ REWRITES = {
 def gaps(labels):
     heads = {k.split(":", 1)[1] for k in labels if k.startswith("class:")}
     allc = {n if n not in ("TriT", "TriBase") else "Tri" for n in gen.PREDS} | {"Kernel.intparam", "Chol.upper"}
-    out = sorted("class never generated: " + c for c in allc - heads)
+    ex = set(_exclusions())
+    out = sorted("class never generated: " + c + (" (removed from the alphabet by an open finding; covered by its witness)" if c in ex else "") for c in allc - heads)
     for o in sorted(set(OPS)):
         if "op:" + o not in labels:
             out.append("operation never generated: " + o)
